@@ -5,6 +5,7 @@
 package c10
 
 import (
+	"fmt"
 	"context"
 	"flag"
 	"math/rand"
@@ -116,6 +117,17 @@ func Main(args []string) error {
 				return err
 			}
 		}
+		// every seventh scenario: neighbouring 63-bit ids (random unique ids look like this), which differ only
+		// below the precision of a float64
+		bigIds := []int64{1<<62 + 1, 1<<62 + 2, 1<<62 + 513}
+		big := i%7 == 3
+		if big {
+			for _, id := range bigIds {
+				if _, err := db.InsertRow(context.Background(), sqlzoo.RandomUser(r, id)); err != nil {
+					return err
+				}
+			}
+		}
 		for _, row := range fdb.Snapshot(sqlzoo.Table) {
 			rec.Rows = append(rec.Rows, sqlzoo.Abs(row))
 		}
@@ -132,6 +144,10 @@ func Main(args []string) error {
 				f, a = filters[k], rec.Calls[k].Filter
 			} else if c > 0 && r.Intn(5) == 0 { // an equal filter twice
 				f, a = filters[c-1], rec.Calls[c-1].Filter
+			}
+			if big && r.Intn(2) == 0 {
+				fv := sqlzoo.FVal{V: fmt.Sprint(bigIds[r.Intn(len(bigIds))]), Rep: "int64"}
+				f, a = sqlgen.Filter{"id": sqlzoo.Go("id", fv)}, map[string]sqlzoo.FVal{"id": fv}
 			}
 			filters[c] = f
 			kind := "query"
